@@ -23,6 +23,9 @@ pub struct Case {
     /// reads into a target with limited room: (blob index, room selector, sink mode)
     #[serde(default)]
     pub sinks: Vec<(u8, u8, u8)>,
+    /// the device reports ErrorKind::Interrupted once, at this operation (selector modulo the number of operations)
+    #[serde(default)]
+    pub interrupt: Option<u32>,
 }
 
 fn blob_program(s: &mut Src) -> Program {
@@ -70,7 +73,7 @@ fn fixed_lengths(t: Tier) -> Vec<Case> {
             }
             ops.push(Op::Blob(BlobSpec { len, seed: len as u64 * 2 + 1, chunk: 0, xmlish: false }));
             ops.push(Op::Blob(BlobSpec { len: 5, seed: 99, chunk: 0, xmlish: false }));
-            out.push(Case { program: Program { guid: "{len-sweep}".into(), ops, end: End::Finalize }, perturb: vec![], damage: vec![], order: vec![], sinks: vec![(1, (len % 7) as u8, (len % 3) as u8)] });
+            out.push(Case { program: Program { guid: "{len-sweep}".into(), ops, end: End::Finalize }, perturb: vec![], damage: vec![], order: vec![], sinks: vec![(1, (len % 7) as u8, (len % 3) as u8)], interrupt: None });
         }
     }
     // blobs and an image close to the end of a big file (hundreds of pages in front of them)
@@ -82,7 +85,7 @@ fn fixed_lengths(t: Tier) -> Vec<Case> {
                 Op::Image(gen::image_spec(&mut s, 1)),
                 Op::Blob(BlobSpec { len: tail, seed: 11, chunk: 0, xmlish: false }),
             ];
-            out.push(Case { program: Program { guid: "{big-file}".into(), ops, end: End::Finalize }, perturb: vec![], damage: vec![], order: vec![], sinks: vec![(1, 3, 0), (0, 2, 1)] });
+            out.push(Case { program: Program { guid: "{big-file}".into(), ops, end: End::Finalize }, perturb: vec![], damage: vec![], order: vec![], sinks: vec![(1, 3, 0), (0, 2, 1)], interrupt: None });
         }
     }
     out
@@ -111,7 +114,7 @@ impl Check for C06 {
          Ok(len) and exactly the written bytes for every descriptor, each image's blob/mask descriptors lead to that image's data; for perturbed \
          descriptors Blob::new(offset, len') the result is Err or exactly len' bytes following the header; on files with damaged pages (1 in 4 \
          cases) every blob read of a generated sequence on one reader fails or returns exactly the written bytes; 1 in 4 blobs is fed from a \
-         source that returns short reads; 1 operation in 11 is an add_blob whose source breaks down part way (the call must fail, everything written before and after it must read back exactly); blobs are also extracted into targets with limited room (error / Ok(0) / short writes when full, room \
+         source that returns short reads; 1 case in 6 runs on a device that reports ErrorKind::Interrupted once (either a call fails or every blob is still exact); 1 operation in 11 is an add_blob whose source breaks down part way (the call must fail, everything written before and after it must read back exactly); blobs are also extracted into targets with limited room (error / Ok(0) / short writes when full, room \
          0, len-1, len/2, len, len+1, ...): Ok(n) only if the target received all n = len written bytes, a failure hands over only a prefix, \
          and the next read on the same reader is exact; 15 enumerated big files (0.3 - 1 MB blob in front of an image and a last blob). Non-trivial: blob spanning >= 2 pages, \
          or ending within 4 bytes of a page end, or length 0, or perturbed descriptor, or limited target."
@@ -138,16 +141,34 @@ impl Check for C06 {
             (vec![], vec![])
         };
         let sinks = (0..s.below(4)).map(|_| (s.byte(), s.below(7) as u8, s.below(3) as u8)).collect();
-        Case { program, perturb, damage, order, sinks }
+        let interrupt = if s.chance(1, 6) { Some(s.u32()) } else { None };
+        Case { program, perturb, damage, order, sinks, interrupt }
     }
     fn run(case: &Case) -> Verdict {
         let mut v = Verdict::new();
         let p = &case.program;
         let dev = MemDev::new();
+        if let Some(sel) = case.interrupt {
+            // a device that reports ErrorKind::Interrupted once (a signal arriving during a system call): the call in
+            // progress may fail; if every call succeeds, every blob must still be exact
+            let dry = MemDev::new();
+            let hd = dry.handle();
+            let mut t0 = Trace::default();
+            let _ = guard(|| prog::exec(p, dry, &mut t0));
+            let n = hd.st.borrow().ops;
+            if n > 0 {
+                dev.st.borrow_mut().fault_at = Some((sel as usize % n, crate::dev::FaultKind::Interrupted));
+                v.nt("device_operation_interrupted_once");
+            }
+        }
         let mut tr = Trace::default();
         let h = dev.handle();
         if let Err(panic) = guard(|| prog::exec(p, dev, &mut tr)) {
             v.fail(format!("writer panicked in {}: {panic}", tr.current));
+            return v;
+        }
+        if case.interrupt.is_some() && tr.error.is_some() {
+            v.label("interrupted_call_reported_an_error");
             return v;
         }
         if let Some((call, e)) = &tr.error {
